@@ -14,7 +14,9 @@ import (
 )
 
 const (
-	KeysIndexSep       = "_"
+	// KeysIndexSep joins path elements to index keys. It must not appear in element names or
+	// key values, otherwise different paths yield the same index key (a_b/c vs. a/b_c).
+	KeysIndexSep       = "\x00"
 	DefaultValuesPrio  = int32(math.MaxInt32 - 90)
 	DefaultsIntentName = "default"
 	RunningValuesPrio  = int32(math.MaxInt32 - 100)
